@@ -27,6 +27,9 @@ type Scenario struct {
 	// Aftermath: what the server, which considers the key established, sends after a key exchange the client aborted at
 	// its last step: "new-session", "bad-salt", "update" ("" = nothing)
 	Aftermath string `json:"aftermath,omitempty"`
+	// FirstDialRefused (handshake): the server is not listening when the client connects for the first time; the
+	// application tries again on the same client object once the server is up
+	FirstDialRefused bool `json:"first_dial_refused,omitempty"`
 	// HSDCs (handshake): conformant reference servers registered in the client's data-centre list under these ids
 	HSDCs   []int        `json:"hs_dcs,omitempty"`
 	RPC     *RPCSpec     `json:"rpc,omitempty"`
@@ -51,6 +54,8 @@ type HSSpec struct {
 	ExtraFP     []int64 `json:"extra_fp,omitempty"`
 	// ExtraFPAfter: fingerprints offered after the real one
 	ExtraFPAfter []int64 `json:"extra_fp_after,omitempty"`
+	// RetryFirst: the server answers that many set_client_DH_params with dh_gen_retry before accepting one
+	RetryFirst int `json:"retry_first,omitempty"`
 	// Splits: reply i of the exchange arrives in two TCP segments, cut after Splits[i] bytes (0: in one)
 	Splits []int `json:"splits,omitempty"`
 }
@@ -65,6 +70,8 @@ type ClientDraws struct {
 type Resume struct {
 	AuthKey []byte `json:"auth_key"`
 	Salt    int64  `json:"salt"`
+	// NoHash: the stored session carries no key id (a store that does not keep what can be derived from the key)
+	NoHash bool `json:"no_hash,omitempty"`
 }
 
 // CallResult is the outcome of one client call.
